@@ -53,6 +53,9 @@ pub fn position_programs() -> Vec<String> {
         ("luau number", "1_0"),
         ("cast", "(x :: any)"),
         ("function with types", "(function(a: number): number return a end)(1)"),
+        ("generic function", "(function<T, U...>(a: T, ...: U...): T return a end)(1)"),
+        ("if-expression with constant conditions", "(if false then 1 elseif x then nil else 2)"),
+        ("if-expression with falsy results", "(if t.z then 1 elseif x then false else 3)"),
         ("function with compound", "(function() local v = 1 v += 1 return v end)()"),
         ("function with continue", "(function() for i = 1, 2 do if i == 1 then continue end return i end end)()"),
         ("function with const", "(function() const c = 5 return c end)()"),
@@ -160,6 +163,9 @@ pub fn nested_position_programs() -> Vec<String> {
         "0b11",
         "(x :: any)",
         "(function(a: number): number return a end)(1)",
+        "(function<T>(a: T): T return a end)(1)",
+        "(if false then 1 elseif x then nil else 2)",
+        "(if t.z then 1 elseif x then false else 3)",
         "(function() local v = 1 v += 1 return v end)()",
         "(function() for i = 1, 2 do if i == 1 then continue end return i end end)()",
         "(function() const c = 5 return c end)()",
